@@ -90,6 +90,9 @@ class _TabulationCutoff(object):
 
     if not nr is None and nr <= 0:
       raise ConfigParserException("'{nr}' in [Tabulation] section of potential definition cannot be 0 (zero) or negative.".format(**self._template_dict))
+    if not nr is None and nr == 1:
+      # A single row does not define a grid: the row spacing is {cutoff}/({nr}-1).
+      raise ConfigParserException("'{nr}' in [Tabulation] section of potential definition must be at least 2 (found 1 row for the given '{cutoff}' and '{dr}').".format(**self._template_dict))
     if not dr is None and dr <= 0:
       raise ConfigParserException("'{dr}' in [Tabulation] section of potential definition cannot be 0 (zero) or negative.".format(**self._template_dict))
     if not cutoff is None and cutoff <= 0:
